@@ -45,8 +45,13 @@ vars == <<g, stack, taken>>
 NoB == <<>>
 \* 2400 = 24 cm and 200 x 300 = 2 x 3 cm are the whole-number sizes grids are built from with ints;
 \* 250 x 350 = 2.5 x 3.5 cm, 24 = 0.24 cm, 1680 = 16.8 cm are not whole numbers of cm
-HexPitches  == IF Rich THEN {<<1680, 1680>>, <<24, 24>>, <<720, 720>>, <<2400, 2400>>}
-               ELSE {<<1680, 1680>>, <<24, 24>>, <<2400, 2400>>}
+\* Pitch changes by a ratio close to one (thermal expansion) need exact rationals: 480000 * (1 +- 1/20000) = 480024,
+\* 479976 and 24000000 * (1 + 1/1000000) = 24000024 are again multiples of 24.  (The absolute size, 4800 cm resp.
+\* 240000 cm, is irrelevant: every law is relative.)  Pitches form groups; ChangePitch stays inside a group.
+HexSmallChange == {<<480000, 480000>>, <<480024, 480024>>, <<479976, 479976>>, <<24000000, 24000000>>, <<24000024, 24000024>>}
+HexPitches  == (IF Rich THEN {<<1680, 1680>>, <<24, 24>>, <<720, 720>>, <<2400, 2400>>}
+                ELSE {<<1680, 1680>>, <<24, 24>>, <<2400, 2400>>}) \cup HexSmallChange
+Group(p) == IF p[1] < 100000 THEN "A" ELSE IF p[1] < 1000000 THEN "B" ELSE "C"
 CartPitches == IF Rich THEN {<<2100, 2140>>, <<100, 60>>, <<128, 128>>, <<250, 350>>, <<200, 300>>}
                ELSE {<<2100, 2140>>, <<250, 350>>, <<200, 300>>}
 Offsets     == {<<0, 0, 0>>, <<50, -225, 300>>}
@@ -92,10 +97,12 @@ Changed(gr, p) ==
                     !.off = <<(gr.off[1] * p[1]) \div gr.p[1], (gr.off[2] * p[2]) \div gr.p[2], 0>>]
 Saved(gr) == [p |-> gr.p, off |-> gr.off]
 
-Init == /\ g \in {x \in AllGrids : x.p = FirstPitch(x.kind, x.how) /\ x.off \in {<<0, 0, 0>>, CartOff(x.var, x.p)}}
+\* the small-change groups start from float-built hex grids without metadata
+SmallStart(x) == x.kind = "hex" /\ x.how = "factory" /\ x.sym = "" /\ x.p \in {<<480000, 480000>>, <<24000000, 24000000>>}
+Init == /\ g \in {x \in AllGrids : (x.p = FirstPitch(x.kind, x.how) \/ SmallStart(x)) /\ x.off \in {<<0, 0, 0>>, CartOff(x.var, x.p)}}
         /\ stack = <<>> /\ taken = <<>>
         /\ act = [n |-> "Init"] /\ err = ""
-ChangePitch(p) == /\ p \in Pitches(g.kind) /\ p # g.p
+ChangePitch(p) == /\ p \in Pitches(g.kind) /\ p # g.p /\ Group(p) = Group(g.p)
                   /\ g' = Changed(g, p) /\ UNCHANGED <<stack, taken>>
                   /\ act' = [n |-> "ChangePitch", p |-> p] /\ err' = ""
 SetOffset(off) == /\ g.kind # "cart" /\ off # g.off
@@ -147,8 +154,13 @@ TypeOK == /\ g \in AllGrids /\ Len(stack) <= MaxStack /\ Len(taken) <= 1
           /\ \A k \in 1..Len(stack) : [g EXCEPT !.p = stack[k].p, !.off = stack[k].off] \in AllGrids
           /\ \A k \in 1..Len(taken) : taken[k] \in AllGrids /\ taken[k].kind = g.kind /\ taken[k].how = g.how
 CellsAreAffine == \A idx \in SampleSet(g) : ValidIdx(g, idx) /\ ThmCellIsAffine(g, idx)
-\* number q = a + b sqrt(3) scaled:  q1 * n2 = q2 * n1  componentwise
-QProp(q1, n1, q2, n2) == q1[1] * n2 = q2[1] * n1 /\ q1[2] * n2 = q2[2] * n1
+\* the lattice coefficient of a number q = a + b sqrt(3): q divided by the unit u (exactly).  Written with
+\* divisions, not cross-multiplications, so that large pitch values stay inside TLC's 32-bit integers.
+Exact(q, u) == q[1] % u = 0 /\ q[2] % u = 0
+Coef(q, u)  == <<q[1] \div u, q[2] \div u>>
+\* units that divide every step-defined coordinate (centre, base or top) of the grid in x and in y
+UX(gr) == IF gr.kind = "hex" THEN gr.p[1] \div 24 ELSE gr.p[1] \div 2
+UY(gr) == IF gr.kind = "hex" THEN gr.p[2] \div 24 ELSE gr.p[2] \div 2
 Discrete(gr) == [kind |-> gr.kind, var |-> gr.var, bounds |-> Bounds(gr), limits |-> IndexBounds(gr),
                  nloc |-> NumLocations(gr), sym |-> gr.sym, geom |-> gr.geom, axial |-> IsAxialOnly(gr),
                  rp |-> [t \in 1..Len(Samples(gr)) |-> OwnRingPos(gr, Samples(gr)[t])],
@@ -163,11 +175,13 @@ PitchRescalesOnly ==
         /\ \A idx \in SampleSet(g) :
              LET a == VSub(Centre(g, idx), VRat(g.off))
                  b == VSub(Centre(h, idx), VRat(h.off))
-             IN /\ QProp(b[1], p[1], a[1], g.p[1]) /\ QProp(b[2], p[2], a[2], g.p[2]) /\ b[3] = a[3]
+             IN /\ Exact(a[1], UX(g)) /\ Exact(b[1], UX(h)) /\ Coef(b[1], UX(h)) = Coef(a[1], UX(g))
+                /\ Exact(a[2], UY(g)) /\ Exact(b[2], UY(h)) /\ Coef(b[2], UY(h)) = Coef(a[2], UY(g))
+                /\ b[3] = a[3]
         \* Cartesian: the whole coordinate (offset included) rescales
         /\ (g.kind = "cart" => \A idx \in SampleSet(g) :
-               /\ QProp(Centre(h, idx)[1], p[1], Centre(g, idx)[1], g.p[1])
-               /\ QProp(Base(h, idx)[2], p[2], Base(g, idx)[2], g.p[2]))
+               /\ Exact(Centre(h, idx)[1], UX(h)) /\ Coef(Centre(h, idx)[1], UX(h)) = Coef(Centre(g, idx)[1], UX(g))
+               /\ Exact(Base(h, idx)[2], UY(h)) /\ Coef(Base(h, idx)[2], UY(h)) = Coef(Base(g, idx)[2], UY(g)))
 RefusalsChangeNothing == [][err' # "" => UNCHANGED vars]_<<g, stack, taken, act, err>>
 \* what was taken earlier is not touched by anything that happens to the grid later
 OnlySnapshotTouchesTaken == [][act'.n # "Snapshot" => taken' = taken]_<<g, stack, taken, act, err>>
